@@ -106,3 +106,35 @@ def seeded_overrides(prop: str, read_text) -> List[Tuple[str, Optional[Dict[str,
             ov[rel] = res
         out.append((name, ov or None, why))
     return out
+
+
+def benign_overrides(prop: str, read_text) -> List[Tuple[str, Optional[Dict[str, str]]]]:
+    """Stored behaviour-preserving refactorings (benign/<name>/patch.diff + meta.json) to be replayed under `prop`:
+    those recorded as silent whose meta lists the property under "replay_under"."""
+    import json
+
+    out: List[Tuple[str, Optional[Dict[str, str]]]] = []
+    d = os.path.join(VERIF, "benign")
+    if not os.path.isdir(d):
+        return out
+    for name in sorted(os.listdir(d)):
+        mf = os.path.join(d, name, "meta.json")
+        pf = os.path.join(d, name, "patch.diff")
+        if not (os.path.isfile(mf) and os.path.isfile(pf)):
+            continue
+        meta = json.load(open(mf))
+        if meta.get("status") != "silent" or prop not in meta.get("replay_under", []):
+            continue
+        files = parse_patch(open(pf, encoding="utf-8", errors="replace").read())
+        ov: Dict[str, str] = {}
+        for rel, hunks in files.items():
+            try:
+                res = apply_hunks(read_text(rel), hunks)
+            except Exception:
+                res = None
+            if res is None:
+                ov = {}
+                break
+            ov[rel] = res
+        out.append((name, ov or None))
+    return out
